@@ -1,8 +1,8 @@
 (* C04  Instruction decoding consumes exactly the architected bytes.
    The decoder model (Model/Decode.v) is generic in its byte source; here it runs on a plain byte string.
-   Missing for the full statement (the theorems below are therefore parts of it): an encoder with
-   decode (encode i ++ rest) = i for every well-formed i; the operand-by-operand contents are tied to the
-   architected encoding by the differential runs and the independent length/legality monitor. *)
+   First the tables, totality and the rejected encodings; then (end of file) the decoder against the architected
+   encoding: decode (encode i ++ rest) = i for every well-formed instruction i of the opcode table, and
+   decoding on the machine = decoding the bytes at the program counter. *)
 From Coq Require Import ZArith List Bool.
 From Dmd Require Import Model.Bits Model.Types Gen.GenOpcodes Model.Decode Spec.ArchOpcodes Proofs.DecodeProofs.
 Open Scope Z_scope.
@@ -70,3 +70,57 @@ Example C04_example :
               = (132, 8, MWordImm, 305419896, MByteDisp, Some 2, 4)
   | _ => False end.
 Proof. vm_compute. reflexivity. Qed.
+
+(* ---- the decoder against the architected encoding (Proofs/EncodeProofs.v) ----
+   amode / enc_mode / enc_opnd / enc_instr are the WE32100 operand syntax and its byte encoding, written down
+   independently of the decoder.  On any byte string that holds the encoding of an instruction of the opcode
+   table at offset 0, the decoder returns that instruction: its opcode, every operand's mode, register, constant
+   (little-endian), type and (own or inherited) expanded type, unused slots cleared, and a length equal to the
+   number of encoded bytes. *)
+From Dmd Require Import Proofs.EncodeProofs Proofs.DecodeSim Proofs.MachKit Proofs.BusProofs Model.Bus Model.Cpu.
+
+Theorem C04_decode_of_encoded_operand :
+  forall bs t a dt et len fuel,
+    wf_opnd t a -> window bs len (enc_opnd t a) -> 0 <= len -> len + Z.of_nat (length (enc_opnd t a)) <= 32 ->
+    (2 <= fuel)%nat ->
+    exists o, decode_descriptor unit (bfetch1 bs) (bfetch2 bs) (bfetch4 bs) fuel dt et false len tt
+              = Ok (o, len + Z.of_nat (length (enc_opnd t a))) tt
+              /\ opnd_is o a dt (et_after t et).
+Proof. exact decode_opnd. Qed.
+Print Assumptions C04_decode_of_encoded_operand.
+
+Theorem C04_decode_of_encoded_instruction :
+  forall bs mn args,
+    in_table mn -> args_fit (mn_dtype mn) (mn_ops mn) args -> window bs 0 (enc_instr mn args) ->
+    Z.of_nat (length (enc_instr mn args)) <= 32 ->
+    exists i, decode_bytes bs = Ok i tt
+      /\ iopcode i = mn_opcode mn
+      /\ ilen i = Z.of_nat (length (enc_instr mn args))
+      /\ exists os, ops_are (mn_dtype mn) None (mn_ops mn) args os
+           /\ op0 i = nth 0 os operand_clear /\ op1 i = nth 1 os operand_clear
+           /\ op2 i = nth 2 os operand_clear /\ op3 i = nth 3 os operand_clear.
+Proof. exact decode_encoded_instruction. Qed.
+Print Assumptions C04_decode_of_encoded_instruction.
+
+(* decoding depends on nothing but the bytes at the program counter: on the machine (code in RAM) it is the
+   decoding of the 36 bytes there, and it changes nothing; two machines with the same bytes there decode alike *)
+Theorem C04_decode_is_decode_of_code_bytes :
+  forall m,
+    bus_wf (mbus m) -> RAMB <= R m R_PC -> R m R_PC + 36 <= RAME -> (forall a, 0 <= ramb m a < 256) ->
+    same_decode (decode m) m (decode_bytes (code_bytes m 36)).
+Proof. exact decode_is_decode_of_code_bytes. Qed.
+Print Assumptions C04_decode_is_decode_of_code_bytes.
+
+Theorem C04_decode_depends_only_on_code :
+  forall m1 m2,
+    bus_wf (mbus m1) -> bus_wf (mbus m2) ->
+    RAMB <= R m1 R_PC -> R m1 R_PC + 36 <= RAME -> RAMB <= R m2 R_PC -> R m2 R_PC + 36 <= RAME ->
+    (forall a, 0 <= ramb m1 a < 256) -> (forall a, 0 <= ramb m2 a < 256) ->
+    code_bytes m1 36 = code_bytes m2 36 ->
+    match decode m1, decode m2 with
+    | Ok i m1', Ok j m2' => i = j /\ m1' = m1 /\ m2' = m2
+    | Err e m1', Err e' m2' => e = e' /\ m1' = m1 /\ m2' = m2
+    | _, _ => False
+    end.
+Proof. exact decode_depends_only_on_code. Qed.
+Print Assumptions C04_decode_depends_only_on_code.
